@@ -50,4 +50,351 @@ theorem layoutOf_set (s : SlaveCtx) (k : Nat) (b' : Block) :
     · simp [hk]
   · simp [h]
 
+theorem blockOf_cases (s : SlaveCtx) (fc : Nat) (t : Table) (ht : fxTable fc = some t) :
+    (s.blocks[s.idx t]? = none ∧ s.blockOf fc = .error .other) ∨
+    (∃ b, s.blocks[s.idx t]? = some b ∧ s.blockOf fc = .ok (s.idx t, b)) := by
+  simp only [SlaveCtx.blockOf, ht]
+  cases s.blocks[s.idx t]? with
+  | none => left; exact ⟨rfl, rfl⟩
+  | some b => right; exact ⟨b, rfl, rfl⟩
+
+theorem validate_of_blockOf {s : SlaveCtx} {fc k b} (h : s.blockOf fc = .ok (k, b)) (a n : Int) :
+    s.validate fc a n = .ok (b.validate (s.off a) n) := by
+  simp [SlaveCtx.validate, h, bind, Except.bind, pure, Except.pure]
+theorem validate_of_blockOf_err {s : SlaveCtx} {fc e} (h : s.blockOf fc = .error e) (a n : Int) :
+    s.validate fc a n = .error e := by
+  simp [SlaveCtx.validate, h, bind, Except.bind]
+theorem getValues_of_blockOf {s : SlaveCtx} {fc k b} (h : s.blockOf fc = .ok (k, b)) (a n : Int) :
+    s.getValues fc a n = b.get (s.off a) n := by
+  simp [SlaveCtx.getValues, h, bind, Except.bind]
+theorem setValues_of_blockOf {s : SlaveCtx} {fc k b} (h : s.blockOf fc = .ok (k, b)) (a : Int) (vs) :
+    s.setValues fc a vs = .ok { s with blocks := s.blocks.set k (b.set (s.off a) vs) } := by
+  simp [SlaveCtx.setValues, h, bind, Except.bind, pure, Except.pure]
+
+@[simp] theorem layoutOf_zeroMode (s : SlaveCtx) : (layoutOf s).zeroMode = s.zeroMode := rfl
+@[simp] theorem layoutOf_tbl (s : SlaveCtx) : (layoutOf s).tbl = s.idx := rfl
+@[simp] theorem layoutOf_broken (s : SlaveCtx) (k : Nat) : (layoutOf s).broken k = s.blocks[k]?.isNone := rfl
+
+theorem off_eq (s : SlaveCtx) (a : Nat) :
+    (a : Int) + (bif s.zeroMode then 0 else 1) = s.off a := rfl
+
+theorem readN_refines (s : SlaveCtx) (fc lim a n : Nat) (mk : List Nat → Resp) (t : Table)
+    (ht : fxTable fc = some t) (ht' : tableOf fc = some t) :
+    access (layoutOf s) (absMem s) fc (decide (1 ≤ n ∧ n ≤ lim)) [((a : Int), n)]
+        (effRead (absMem s) mk a n) =
+      (match Impl.readN s fc lim a n mk with
+       | .ok x => (absMem x.1, x.2)
+       | .error _ => (absMem s, .exception fc excSlaveFailure)) := by
+  unfold access Impl.readN effRead
+  by_cases hv : 1 ≤ n ∧ n ≤ lim
+  · simp only [hv, and_self, decide_true, Bool.not_true, Bool.false_eq_true, if_false, ht', not_true_eq_false]
+    rcases blockOf_cases s fc t ht with ⟨hb, he⟩ | ⟨b, hb, he⟩
+    · simp [validate_of_blockOf_err he, hb, bind, Except.bind, excSlaveFailure]
+    · have hm : absMem s (s.idx t) = b.cell := by simp [absMem, hb]
+      simp only [validate_of_blockOf he, getValues_of_blockOf he, layoutOf_zeroMode, layoutOf_tbl, layoutOf_broken, hb, Option.isNone_some,
+        Bool.false_eq_true, if_false, bind, Except.bind, pure, Except.pure,
+        List.all_cons, List.all_nil, Bool.and_true, hm]
+      simp only [off_eq, ← validate_eq_populated b (s.off a) n hv.1]
+      cases hval : b.validate (s.off a) n with
+      | false => simp [excIllegalAddress]
+      | true =>
+        simp only [Bool.not_true, Bool.false_eq_true, if_false]
+        rw [get_eq_readCells b (s.off a) n hv.1 hval]
+  · simp [hv, excIllegalValue]
+
+theorem blockOf_after_set (s : SlaveCtx) (fc : Nat) (t : Table) (ht : fxTable fc = some t)
+    (b b' : Block) (hb : s.blocks[s.idx t]? = some b) :
+    ({ s with blocks := s.blocks.set (s.idx t) b' } : SlaveCtx).blockOf fc = .ok (s.idx t, b') := by
+  have hk : s.idx t < s.blocks.length := by
+    rcases List.getElem?_eq_some_iff.1 hb with ⟨h, _⟩; exact h
+  have hidx : ({ s with blocks := s.blocks.set (s.idx t) b' } : SlaveCtx).idx t = s.idx t := by
+    cases t <;> rfl
+  simp only [SlaveCtx.blockOf, ht, hidx]
+  simp [hk]
+
+theorem writeOne_refines (s : SlaveCtx) (fc a v : Nat) (mk : Nat → Resp) (t : Table)
+    (ht : fxTable fc = some t) (ht' : tableOf fc = some t) :
+    access (layoutOf s) (absMem s) fc true [((a : Int), 1)]
+        (effWrite (absMem s) a [v] (mk v)) =
+      (match Impl.writeOne s fc a v mk with
+       | .ok x => (absMem x.1, x.2)
+       | .error _ => (absMem s, .exception fc excSlaveFailure)) := by
+  unfold access Impl.writeOne effWrite
+  simp only [Bool.not_true, Bool.false_eq_true, if_false, ht']
+  rcases blockOf_cases s fc t ht with ⟨hb, he⟩ | ⟨b, hb, he⟩
+  · simp [validate_of_blockOf_err he, hb, bind, Except.bind, excSlaveFailure]
+  · have hm : absMem s (s.idx t) = b.cell := by simp [absMem, hb]
+    have hk : s.idx t < s.blocks.length := by
+      rcases List.getElem?_eq_some_iff.1 hb with ⟨h, _⟩; exact h
+    simp only [validate_of_blockOf he, setValues_of_blockOf he, layoutOf_zeroMode, layoutOf_tbl,
+      layoutOf_broken, hb, Option.isNone_some,
+      Bool.false_eq_true, if_false, bind, Except.bind, pure, Except.pure,
+      List.all_cons, List.all_nil, Bool.and_true, hm]
+    simp only [off_eq, ← validate_eq_populated b (s.off a) 1 (by omega)]
+    cases hval : b.validate (s.off a) ((1 : Nat) : Int) with
+    | false => simp [excIllegalAddress]
+    | true =>
+      simp only [Bool.not_true, Bool.false_eq_true, if_false]
+      have hval' : b.validate (s.off a) (([v] : List Nat).length : Int) = true := hval
+      have hs := blockOf_after_set s fc t ht b (b.set (s.off a) [v]) hb
+      rw [getValues_of_blockOf hs]
+      have hoff : ({ s with blocks := s.blocks.set (s.idx t) (b.set (s.off a) [v]) } : SlaveCtx).off a = s.off a := rfl
+      rw [hoff]
+      have hg : (b.set (s.off a) [v]).get (s.off a) 1 = .ok [v] :=
+        (get_after_set b (s.off a) [v] (by simp) hval').2
+      rw [hg]
+      simp only [absMem_set s _ _ hk, set_eq_writeCells b _ _ hval']
+
+theorem xor_ffff (am : Nat) (h : am ≤ 0xFFFF) : am ^^^ 0xFFFF = 0xFFFF - am := by
+  apply Nat.eq_of_testBit_eq
+  intro i
+  have e1 : 0xFFFF - am = 2^16 - (am + 1) := by omega
+  have e2 : (0xFFFF : Nat) = 2^16 - 1 := by decide
+  rw [Nat.testBit_xor, e1, Nat.testBit_two_pow_sub_succ (by omega), e2, Nat.testBit_two_pow_sub_one]
+  by_cases hi : i < 16
+  · simp [hi]
+  · have : am.testBit i = false := by
+      apply Nat.testBit_lt_two_pow
+      calc am < 2^16 := by omega
+        _ ≤ 2^i := Nat.pow_le_pow_right (by decide) (by omega)
+    simp [hi, this]
+
+/-- shape shared by FC 15/16 after their value checks: validate, write, fixed response -/
+theorem writeN_refines (s : SlaveCtx) (fc a : Nat) (vs : List Nat) (resp : Resp) (t : Table)
+    (ht : fxTable fc = some t) (ht' : tableOf fc = some t) (hn : 1 ≤ vs.length) :
+    access (layoutOf s) (absMem s) fc true [((a : Int), vs.length)]
+        (effWrite (absMem s) a vs resp) =
+      (match (do
+          if !(← s.validate fc a vs.length) then return (s, Resp.exception fc excIllegalAddress)
+          let s' ← s.setValues fc a vs
+          return (s', resp) : PyM (SlaveCtx × Resp)) with
+       | .ok x => (absMem x.1, x.2)
+       | .error _ => (absMem s, .exception fc excSlaveFailure)) := by
+  unfold access effWrite
+  simp only [Bool.not_true, Bool.false_eq_true, if_false, ht']
+  rcases blockOf_cases s fc t ht with ⟨hb, he⟩ | ⟨b, hb, he⟩
+  · simp [validate_of_blockOf_err he, hb, bind, Except.bind, excSlaveFailure]
+  · have hm : absMem s (s.idx t) = b.cell := by simp [absMem, hb]
+    have hk : s.idx t < s.blocks.length := by
+      rcases List.getElem?_eq_some_iff.1 hb with ⟨h, _⟩; exact h
+    simp only [validate_of_blockOf he, setValues_of_blockOf he, layoutOf_zeroMode, layoutOf_tbl,
+      layoutOf_broken, hb, Option.isNone_some,
+      Bool.false_eq_true, if_false, bind, Except.bind, pure, Except.pure,
+      List.all_cons, List.all_nil, Bool.and_true, hm]
+    simp only [off_eq, ← validate_eq_populated b (s.off a) vs.length hn]
+    cases hval : b.validate (s.off a) (vs.length : Int) with
+    | false => simp [excIllegalAddress]
+    | true =>
+      simp only [Bool.not_true, Bool.false_eq_true, if_false]
+      simp only [absMem_set s _ _ hk, set_eq_writeCells b _ _ hval]
+
+theorem maskWrite_refines (s : SlaveCtx) (a am om : Nat) (ham : am ≤ 0xFFFF) :
+    access (layoutOf s) (absMem s) 22 true [((a : Int), 1)]
+      (effMask (absMem s) a am om) =
+      (match (do
+          if !(← s.validate 22 a 1) then return (s, Resp.exception 22 excIllegalAddress)
+          let vs ← s.getValues 22 a 1
+          match vs with
+          | cur :: _ =>
+            let v := (cur &&& am) ||| (om &&& (am ^^^ 0xFFFF))
+            let s' ← s.setValues 22 a [v]
+            return (s', Resp.maskWrite a am om)
+          | [] => .error .index : PyM (SlaveCtx × Resp)) with
+       | .ok x => (absMem x.1, x.2)
+       | .error _ => (absMem s, .exception 22 excSlaveFailure)) := by
+  have ht : fxTable 22 = some .h := by decide
+  have ht' : tableOf 22 = some .h := rfl
+  unfold access effMask
+  simp only [Bool.not_true, Bool.false_eq_true, if_false, ht']
+  rcases blockOf_cases s 22 .h ht with ⟨hb, he⟩ | ⟨b, hb, he⟩
+  · simp [validate_of_blockOf_err he, hb, bind, Except.bind, excSlaveFailure]
+  · have hm : absMem s (s.idx .h) = b.cell := by simp [absMem, hb]
+    have hk : s.idx .h < s.blocks.length := by
+      rcases List.getElem?_eq_some_iff.1 hb with ⟨h, _⟩; exact h
+    simp only [validate_of_blockOf he, getValues_of_blockOf he, setValues_of_blockOf he, layoutOf_zeroMode,
+      layoutOf_tbl, layoutOf_broken, hb, Option.isNone_some,
+      Bool.false_eq_true, if_false, bind, Except.bind, pure, Except.pure,
+      List.all_cons, List.all_nil, Bool.and_true, hm]
+    simp only [off_eq, ← validate_eq_populated b (s.off a) 1 (by omega)]
+    cases hval : b.validate (s.off a) ((1 : Nat) : Int) with
+    | false => simp [excIllegalAddress]
+    | true =>
+      simp only [Bool.not_true, Bool.false_eq_true, if_false]
+      obtain ⟨ws, e1, e2, e3⟩ := get_spec b (s.off a) ((1 : Nat) : Int) (by omega) hval
+      have e1' : b.get (s.off a) 1 = .ok ws := e1
+      rw [e1']
+      match ws, e2, e3 with
+      | [cur], _, e3 =>
+        have hc := e3 0 (by simp)
+        simp only [Int.ofNat_zero, Int.add_zero, List.getElem?_cons_zero] at hc
+        have hc' : b.cell (s.off a) = some cur := by simpa using hc
+        simp only [hc']
+        have hx : am ^^^ 0xFFFF = 0xFFFF - am := xor_ffff am ham
+        have hval' : b.validate (s.off a) (([(cur &&& am) ||| (om &&& (0xFFFF - am))] : List Nat).length : Int) = true := hval
+        simp only [hx, absMem_set s _ _ hk, set_eq_writeCells b _ _ hval']
+
+theorem validate_after_set (b : Block) (a : Int) (vs : List Nat) (hv : b.validate a vs.length = true)
+    (a' : Int) (n : Nat) (hn : 1 ≤ n) : (b.set a vs).validate a' n = b.validate a' n := by
+  rw [Bool.eq_iff_iff, validate_iff _ _ _ (by omega), validate_iff _ _ _ (by omega)]
+  unfold AllPopulated
+  constructor
+  · intro h k h0 h1; rw [← set_extent b a vs hv]; exact h k h0 h1
+  · intro h k h0 h1; rw [set_extent b a vs hv]; exact h k h0 h1
+
+theorem readWrite_refines (s : SlaveCtx) (ra rn wa : Nat) (wregs : List Nat)
+    (hrn : 1 ≤ rn) (hwn : 1 ≤ wregs.length) :
+    access (layoutOf s) (absMem s) 23 true [((wa : Int), wregs.length), ((ra : Int), rn)]
+      (effReadWrite (absMem s) ra rn wa wregs) =
+      (match (do
+          if !(← s.validate 23 wa wregs.length) then return (s, Resp.exception 23 excIllegalAddress)
+          if !(← s.validate 23 ra rn) then return (s, Resp.exception 23 excIllegalAddress)
+          let s' ← s.setValues 23 wa wregs
+          let regs ← s'.getValues 23 ra rn
+          return (s', Resp.readWrite regs) : PyM (SlaveCtx × Resp)) with
+       | .ok x => (absMem x.1, x.2)
+       | .error _ => (absMem s, .exception 23 excSlaveFailure)) := by
+  have ht : fxTable 23 = some .h := by decide
+  have ht' : tableOf 23 = some .h := rfl
+  unfold access effReadWrite
+  simp only [Bool.not_true, Bool.false_eq_true, if_false, ht']
+  rcases blockOf_cases s 23 .h ht with ⟨hb, he⟩ | ⟨b, hb, he⟩
+  · simp [validate_of_blockOf_err he, hb, bind, Except.bind, excSlaveFailure]
+  · have hm : absMem s (s.idx .h) = b.cell := by simp [absMem, hb]
+    have hk : s.idx .h < s.blocks.length := by
+      rcases List.getElem?_eq_some_iff.1 hb with ⟨h, _⟩; exact h
+    simp only [validate_of_blockOf he, setValues_of_blockOf he, layoutOf_zeroMode,
+      layoutOf_tbl, layoutOf_broken, hb, Option.isNone_some,
+      Bool.false_eq_true, if_false, bind, Except.bind, pure, Except.pure,
+      List.all_cons, List.all_nil, Bool.and_true, hm]
+    simp only [off_eq, ← validate_eq_populated b (s.off wa) wregs.length hwn,
+      ← validate_eq_populated b (s.off ra) rn hrn]
+    cases hvw : b.validate (s.off wa) (wregs.length : Int) with
+    | false => simp [excIllegalAddress]
+    | true =>
+      cases hvr : b.validate (s.off ra) (rn : Int) with
+      | false => simp [excIllegalAddress]
+      | true =>
+        simp only [Bool.and_self, Bool.not_true, Bool.false_eq_true, if_false]
+        have hs := blockOf_after_set s 23 .h ht b (b.set (s.off wa) wregs) hb
+        rw [getValues_of_blockOf hs]
+        have hoff : ({ s with blocks := s.blocks.set (s.idx .h) (b.set (s.off wa) wregs) } : SlaveCtx).off ra
+            = s.off ra := rfl
+        rw [hoff]
+        have hvr' : (b.set (s.off wa) wregs).validate (s.off ra) rn = true := by
+          rw [validate_after_set b _ _ hvw _ _ hrn]; exact hvr
+        rw [get_eq_readCells _ _ _ hrn hvr']
+        simp only [absMem_set s _ _ hk, set_eq_writeCells b _ _ hvw]
+
+def Shape (s s' : SlaveCtx) : Prop :=
+  s'.d = s.d ∧ s'.c = s.c ∧ s'.i = s.i ∧ s'.h = s.h ∧ s'.zeroMode = s.zeroMode ∧
+  s'.blocks.length = s.blocks.length
+
+theorem Shape.refl (s : SlaveCtx) : Shape s s := ⟨rfl, rfl, rfl, rfl, rfl, rfl⟩
+
+theorem setValues_shape {s s' : SlaveCtx} {fc a vs} (h : s.setValues fc a vs = .ok s') : Shape s s' := by
+  unfold SlaveCtx.setValues at h
+  cases hb : s.blockOf fc with
+  | error e => simp [hb, bind, Except.bind] at h
+  | ok kb =>
+    simp only [hb, bind, Except.bind, pure, Except.pure, Except.ok.injEq] at h
+    subst h
+    exact ⟨rfl, rfl, rfl, rfl, rfl, by simp⟩
+
+theorem layoutOf_of_shape {s s' : SlaveCtx} (h : Shape s s') : layoutOf s' = layoutOf s := by
+  obtain ⟨h1, h2, h3, h4, h5, h6⟩ := h
+  simp only [layoutOf, Layout.mk.injEq]
+  refine ⟨?_, h5, ?_⟩
+  · funext t; cases t <;> simp [SlaveCtx.idx, *]
+  · funext k
+    by_cases hk : k < s.blocks.length
+    · rw [List.getElem?_eq_getElem hk, List.getElem?_eq_getElem (by omega)]; rfl
+    · rw [List.getElem?_eq_none (by omega), List.getElem?_eq_none (by omega)]
+
+theorem readN_shape {s s' fc lim a n mk resp} (h : Impl.readN s fc lim a n mk = .ok (s', resp)) : Shape s s' := by
+  unfold Impl.readN at h
+  split at h
+  · injection h with h; injection h with h1 h2; subst h1; exact Shape.refl _
+  · cases hv : s.validate fc a n with
+    | error e => simp [hv, bind, Except.bind] at h
+    | ok v =>
+      cases hg : s.getValues fc a n with
+      | error e => 
+        cases v <;> simp [hv, hg, bind, Except.bind, pure, Except.pure] at h
+        exact h.1 ▸ Shape.refl _
+      | ok vs =>
+        cases v <;> simp [hv, hg, bind, Except.bind, pure, Except.pure] at h <;> exact h.1 ▸ Shape.refl _
+
+theorem bind_ok {α β} {x : PyM α} {f : α → PyM β} {y : β} (h : (x >>= f) = .ok y) :
+    ∃ a, x = .ok a ∧ f a = .ok y := by
+  cases x with
+  | error e => simp [bind, Except.bind] at h
+  | ok a => exact ⟨a, rfl, h⟩
+
+theorem ok_inj {s s' : SlaveCtx} {r r' : Resp} (h : (pure (s, r) : PyM (SlaveCtx × Resp)) = .ok (s', r')) : s = s' := by
+  injection h with h; injection h
+
+theorem writeOne_shape {s s' fc a v mk resp} (h : Impl.writeOne s fc a v mk = .ok (s', resp)) : Shape s s' := by
+  unfold Impl.writeOne at h
+  obtain ⟨b, _, h⟩ := bind_ok h
+  split at h
+  · exact ok_inj h ▸ Shape.refl _
+  · obtain ⟨s1, hs1, h⟩ := bind_ok h
+    obtain ⟨vs, _, h⟩ := bind_ok h
+    split at h
+    · exact ok_inj h ▸ setValues_shape hs1
+    · cases h
+
+theorem execute_shape {s s' r resp} (h : Impl.execute s r = .ok (s', resp)) : Shape s s' := by
+  cases r <;> simp only [Impl.execute] at h
+  case readCoils => exact readN_shape h
+  case readDiscrete => exact readN_shape h
+  case readHolding => exact readN_shape h
+  case readInput => exact readN_shape h
+  case writeCoil =>
+    split at h
+    · injection h with h; injection h with h1 h2; exact h1 ▸ Shape.refl _
+    · exact writeOne_shape h
+  case writeRegister =>
+    split at h
+    · injection h with h; injection h with h1 h2; exact h1 ▸ Shape.refl _
+    · exact writeOne_shape h
+  case writeCoils =>
+    repeat (split at h; · injection h with h; injection h with h1 h2; exact h1 ▸ Shape.refl _)
+    obtain ⟨b, _, h⟩ := bind_ok h
+    split at h
+    · exact ok_inj h ▸ Shape.refl _
+    · obtain ⟨s1, hs1, h⟩ := bind_ok h
+      exact ok_inj h ▸ setValues_shape hs1
+  case writeRegisters =>
+    repeat (split at h; · injection h with h; injection h with h1 h2; exact h1 ▸ Shape.refl _)
+    obtain ⟨b, _, h⟩ := bind_ok h
+    split at h
+    · exact ok_inj h ▸ Shape.refl _
+    · obtain ⟨s1, hs1, h⟩ := bind_ok h
+      exact ok_inj h ▸ setValues_shape hs1
+  case maskWrite =>
+    repeat (split at h; · injection h with h; injection h with h1 h2; exact h1 ▸ Shape.refl _)
+    obtain ⟨b, _, h⟩ := bind_ok h
+    split at h
+    · exact ok_inj h ▸ Shape.refl _
+    · obtain ⟨vs, _, h⟩ := bind_ok h
+      split at h
+      · obtain ⟨s1, hs1, h⟩ := bind_ok h
+        exact ok_inj h ▸ setValues_shape hs1
+      · cases h
+  case readWrite =>
+    repeat (split at h; · injection h with h; injection h with h1 h2; exact h1 ▸ Shape.refl _)
+    obtain ⟨b, _, h⟩ := bind_ok h
+    split at h
+    · exact ok_inj h ▸ Shape.refl _
+    · obtain ⟨b2, _, h⟩ := bind_ok h
+      split at h
+      · exact ok_inj h ▸ Shape.refl _
+      · obtain ⟨s1, hs1, h⟩ := bind_ok h
+        obtain ⟨regs, _, h⟩ := bind_ok h
+        exact ok_inj h ▸ setValues_shape hs1
+  case illegalFunction =>
+    injection h with h; injection h with h1 h2; exact h1 ▸ Shape.refl _
+  all_goals cases h
+
 end Pymodbus
